@@ -107,6 +107,17 @@ def tree_copy_clear(ctx, P, rule="TREE-STATE"):
             # reset by a loop (num_tracked_samples): a store self->f[j] = 0 inside a for over all nodes
             st = [n for l, o, r, n in FL.assigns if l.startswith("self->%s[" % f) and o == "="]
             ctx.ob(rule, "clear|%s" % f, bool(st), tu.loc(cl.node), "reset by %d store(s) in tsk_tree_clear" % len(st))
+            # a reset loop that skips the sample nodes must be complemented by a store that re-initialises the sample nodes'
+            # entries (as num_samples[u] = 1 does for num_samples): otherwise those entries survive the clear
+            skipping = [n for n in st if any(re.search(r"!\s*\(?\(?flags\[\w+\] & TSK_NODE_IS_SAMPLE", tu.src(i.kids[0])) for i, br in FL.enclosing_ifs(n))]
+            if skipping:
+                sample_vars = {estr(x.kids[0]) for x in walk(cl.body) if x.k == "BinaryOperator" and x.op == "="
+                               and re.search(r"self->samples\[", estr(x.kids[1]))}
+                cover = [n for l, o, r, n in FL.assigns if o == "=" and any(l == "self->%s[%s]" % (f, v) for v in sample_vars)]
+                ctx.ob(rule, "clear|%s|sample-nodes" % f, bool(cover), tu.loc(skipping[0]),
+                       "the reset loop skips sample nodes and their entries are re-initialised from self->samples" if cover else
+                       "self->%s is reset only for non-sample nodes and never re-initialised for sample nodes: a sample node with "
+                       "children keeps the count of its last subtree when the tree returns to the null state" % f)
         # (d)
         ctx.ob(rule, "free|%s" % f, f in freed, tu.loc(fr.node), "freed in tsk_tree_free")
     for sc in ("index", "interval", "sites", "sites_length", "num_edges", "tree_pos", "root_threshold"):
